@@ -314,9 +314,9 @@ Definition supported (t : ty) (v : sval) : Prop := forall e, ~ unsupported CElem
    A TOML document is a table.  `table_shaped t v`: the value is written as a table — a struct, a
    map, or a newtype / tuple / struct variant (a one-entry table), possibly behind Some / newtype
    structs.  toml::to_string looks at the root value itself first: a struct variant there is
-   refused by name, a tuple variant is written as a bare array (hence refused as a non-table), and
-   a Datetime is written as the table { "$__toml_private_datetime" = "<text>" } (known class
-   private-datetime-key). *)
+   refused by name and a tuple variant is written as a bare array (hence refused as a non-table).
+   (A Datetime at the root is a non-table on every document route since the repair of
+   C06-root-datetime-printed-as-table: toml's serialize_struct passes the struct name on.) *)
 Fixpoint table_shaped (t : ty) (v : sval) {struct t} : bool :=
   match t, v with
   | TOpt t', SSome v' => table_shaped t' v'
@@ -329,7 +329,6 @@ Fixpoint table_shaped (t : ty) (v : sval) {struct t} : bool :=
 
 Definition toml_root_shaped (t : ty) (v : sval) : bool :=
   match t, v with
-  | TDatetime _, SDt _ => true
   | TEnum _ vs, SVariant i _ => pick (fun nv => match snd nv with VNewtype _ => true | _ => false end) false vs i
   | _, _ => table_shaped t v
   end.
